@@ -36,12 +36,16 @@ ASSUMPTIONS = [
     "keys: tuples of ints and slices (no Ellipsis / None), full-dimension equal-length integer lists, full-shape "
     "boolean masks; an assignment that raises is modelled as leaving the dict unchanged (true for every key and "
     "value NumPy accepts)",
+    "on a 1-d DOK, __setitem__ reads a tuple of integers as an integer list (d[(0, 1)] = v assigns two elements; "
+    "NumPy raises IndexError: too many indices) — NumPy rejects these keys, so they are outside the property; the "
+    "one-element tuple (i,) is generated and modelled as the integer list [i]",
 ]
 
 EXC = {"ValueError": 1, "IndexError": 2, "TypeError": 3, "NotImplementedError": 4, "ZeroDivisionError": 5,
        "RuntimeError": 6, "OverflowError": 7}
 CLAUSES = {0: None, 3: "value_ndim_exceeds_slice_count", 4: "fancy_index_negative_or_out_of_range",
            5: "fancy_empty_index_list", 6: "fancy_value_not_0d_or_exact_length", 7: "bool_mask_key",
+           8: "bool_mask_read_1d_taken_as_integers",
            10: "empty_tuple_key"}
 KINDS = {1: "representation", 2: "value", 3: "representation", 4: "value", 5: "value", 6: "representation",
          7: "representation"}
@@ -300,7 +304,8 @@ def rnd_basic_key(rng, shape, tags, for_read=False):
         return {"t": "basic", "es": []}
     if r < 0.05:
         tags.append("key:too_many")
-        return {"t": "basic", "es": [["i", 0]] * (nd + 1)}
+        # (on a 1-d array a tuple of integers only would be read by __setitem__ as an integer LIST)
+        return {"t": "basic", "es": [["i", 0]] * nd + [sl_entry(None, None, None)]}
     n = nd if rng.random() < 0.8 else rng.randint(1, nd)
     es = []
     form = rng.random()
@@ -405,7 +410,8 @@ def gen_history(rng, maxlen):
             if kr < 0.8:
                 key = rnd_basic_key(rng, shape, tags, for_read=True)
             elif kr < 0.95:
-                key = rnd_fancy_key(rng, shape, tags)
+                # reads cannot corrupt the dict: negative / too large indices are allowed anywhere
+                key = rnd_fancy_key(rng, shape, tags, corrupt=rng.random() < 0.15)
             else:
                 size = 1
                 for d in shape:
@@ -499,9 +505,13 @@ def shrink(build, case, target, budget_rounds):
                                         cands, workers=min(6, len(cands)))
         pick = None
         for j in range(len(cands)):
-            if j in verd and decode(verd[j])[1:] == target:
-                pick = j
-                break
+            if j in verd:
+                st_j, cl_j, k_j = decode(verd[j])
+                ops_j = cands[j]["ops"]
+                ot_j = "final" if st_j > len(ops_j) else ops_j[st_j - 1]["k"]
+                if (cl_j, k_j, ot_j) == target:
+                    pick = j
+                    break
         if pick is None:
             break
         cur = cands[pick]
@@ -529,18 +539,24 @@ def campaign(build, tier, seed, report, budget=1):
     classes = {}
     for i, code in sorted(verdicts.items()):
         step, clause, kind = decode(code)
-        classes.setdefault((clause, kind), []).append((i, step))
-    for (clause, kind), members in sorted(classes.items()):
-        i, step = members[0]
+        ops_i = cases[i]["ops"]
+        optype = "final" if step > len(ops_i) else ops_i[step - 1]["k"]
+        classes.setdefault((clause, kind, optype), []).append((i, step))
+    for (clause, kind, optype), members in sorted(classes.items()):
+        # representative: prefer a history without zero extents / empty values, failing early
+        def score(m):
+            c = cases[m[0]]
+            op = c["ops"][m[1] - 1] if m[1] <= len(c["ops"]) else {}
+            return (any(d == 0 for d in c["shape"]), 0 in op.get("vsh", []), m[1], m[0])
+        i, step = min(members, key=score)
         case = cases[i]
         # keep the operations up to the failing step only
         trunc = dict(case, ops=case["ops"][:step]) if step <= len(case["ops"]) else case
-        small = shrink(build, trunc, (clause, kind), 6 if tier == "quick" else 14)
+        small = shrink(build, trunc, (clause, kind, optype), 6 if tier == "quick" else 14)
         r2 = impl_history_subprocess(small)
-        failing = small["ops"][-1] if small["ops"] else None
         v = {"property": "C12",
-             "op": ("final_observations" if step > len(case["ops"]) else
-                    "setitem" if failing and failing["k"] == "set" else "getitem"),
+             "op": ("spec_vs_numpy" if kind == 7 else "final_observations" if optype == "final" else
+                    "setitem" if optype == "set" else "getitem"),
              "kind": KINDS.get(kind, "value"), "clause": CLAUSES.get(clause, f"clause_{clause}"),
              "verdict_kind": kind, "verdict_note": KIND_NOTE.get(kind),
              "case": {"shape": small["shape"], "fill": small["fill"], "ops": small["ops"]},
@@ -580,8 +596,8 @@ def campaign(build, tier, seed, report, budget=1):
             prev = st["after"]
         if changed:
             distinct.add(vlib.digest({k: c[k] for k in ("shape", "fill", "ops")}))
-    for (clause, kind), members in classes.items():
-        tags[f"verdict:clause={CLAUSES.get(clause)}:kind={kind}"] = len(members)
+    for (clause, kind, optype), members in classes.items():
+        tags[f"verdict:{optype}:clause={CLAUSES.get(clause)}:kind={kind}"] = len(members)
     cov = report["coverage"]
     cov["evaluations"] = len(cases)
     cov["distinct_nontrivial"] = len(distinct)
